@@ -141,6 +141,20 @@ func (e *Env) eval(x Expr) CV {
 		ne.vars[x.Var] = v
 		return ne.eval(x.Body)
 	case *EQuant:
+		if x.Lo == nil {
+			ne := e.child()
+			bv := "q_" + x.Var
+			for ne.bound[bv] {
+				bv += "_"
+			}
+			ne.bound[bv] = true
+			ne.vars[x.Var] = CV{k: cvInt, t: bv}
+			body := ne.eval(x.Body).asBool()
+			if x.Forall {
+				return CV{k: cvBool, t: fmt.Sprintf("(forall ((%s Int)) %s)", bv, body)}
+			}
+			return CV{k: cvBool, t: fmt.Sprintf("(exists ((%s Int)) %s)", bv, body)}
+		}
 		lo, hi := e.eval(x.Lo).asInt(), e.eval(x.Hi).asInt()
 		if l, ok := isNumLit(lo); ok {
 			if h, ok2 := isNumLit(hi); ok2 && h-l <= 64 {
@@ -186,7 +200,21 @@ func (e *Env) eval(x Expr) CV {
 		}
 		body := ne.eval(x.Body).asBool()
 		if x.Forall {
-			return CV{k: cvBool, t: fmt.Sprintf("(forall ((%s Int)) %s)", bv, imp(rng, body))}
+			abs := fmt.Sprintf("(forall ((%s Int)) %s)", bv, imp(rng, body))
+			if shift == "0" {
+				return CV{k: cvBool, t: abs}
+			}
+			// the same fact with the bound variable as relative index
+			rel := e.child()
+			rel.bound[bv] = true
+			rel.vars[x.Var] = CV{k: cvInt, t: bv}
+			relT := fmt.Sprintf("(forall ((%s Int)) %s)", bv, imp(and(le(lo, bv), lt(bv, hi)), rel.eval(x.Body).asBool()))
+			if fx.hypMode {
+				// assumptions are given in both shapes so that they match
+				// goals and terms in either
+				return CV{k: cvBool, t: and(abs, relT)}
+			}
+			return CV{k: cvBool, t: relT}
 		}
 		return CV{k: cvBool, t: fmt.Sprintf("(exists ((%s Int)) %s)", bv, and(rng, body))}
 	case *EIndex:
@@ -497,7 +525,14 @@ func (e *Env) deref(p Val) CV {
 	if p.sh.elem == nil {
 		unsupp("contract: dereference of untyped pointer")
 	}
-	return cvOf(fx.loadObj(e.st, p.sh.elem, p.ts[0]))
+	v := fx.loadObj(e.st, p.sh.elem, p.ts[0])
+	if len(e.bound) == 0 {
+		// every heap location holds a well-typed value
+		if ti := typeInvariant(v); ti != "true" {
+			fx.assumes = append(fx.assumes, ti)
+		}
+	}
+	return cvOf(v)
 }
 
 func (e *Env) field(b CV, name string) CV {
@@ -847,6 +882,32 @@ func (e *Env) call(x *ECall) CV {
 			}
 		}
 		unsupp("contract: with: no field %s", fs.V)
+	case "lt":
+		// the total order of an ordered type parameter
+		fx.declareOrd()
+		return CV{k: cvBool, t: app("|ord.lt|", arg(0).asInt(), arg(1).asInt())}
+	case "visited":
+		// visited(x): key x has been yielded by the map iteration in progress
+		if e.fr == nil {
+			unsupp("contract: visited() outside a loop invariant")
+		}
+		for _, c := range e.fr.iters {
+			if v, ok := e.st.cells[c]; ok && c.sh.key == "mapiter" {
+				return CV{k: cvBool, t: sel(v.ts[0], arg(0).asInt())}
+			}
+		}
+		unsupp("contract: no map iteration in progress")
+	case "local":
+		// local(x): value of the local variable x at this return point
+		id, ok := x.Args[0].(*EIdent)
+		if !ok || fx.rootFrame == nil {
+			unsupp("contract: local(name)")
+		}
+		v, found := fx.rootFrame.localByName(id.Name, e.st)
+		if !found {
+			unsupp("contract: local %s is not live here", id.Name)
+		}
+		return cvOf(v)
 	case "zero":
 		s, ok := x.Args[0].(*EStr)
 		if !ok {
@@ -1029,7 +1090,8 @@ func (e *Env) instantiateSpecFnEnsures(sf *SpecFn, args []CV, res CV) {
 	}
 	ne.vars["result"] = res
 	for _, c := range sf.Ensures {
-		fx.assumes = append(fx.assumes, ne.eval(c.E).asBool())
+		c := c
+		fx.assumes = append(fx.assumes, fx.hyp(func() T { return ne.eval(c.E).asBool() }))
 	}
 }
 
